@@ -41,6 +41,11 @@ type c10Case struct {
 	Interceptor bool
 	Cancel      bool // cancel the outermost caller while the innermost handler is running
 	Mutate      bool // handlers mutate the metadata they see; callers mutate theirs after the call
+	// Again > 0: separate mode - Again+1 calls in a row on one channel with the very same context object; the
+	// caller updates its attached metadata map in place between the calls (metadata is read when a call is
+	// made), and every handler sees the metadata as it was when its call was made
+	Again       int  `json:",omitempty"`
+	AgainStream bool `json:",omitempty"`
 	MutCaller   bool // streaming callers modify the very map they attached, after the call has started and before the handler looks
 }
 
@@ -86,7 +91,69 @@ func (p *c10Probe) fault(format string, a ...interface{}) {
 	p.mu.Unlock()
 }
 
+func c10Again(c c10Case) *Outcome {
+	o := &Outcome{NonTrivial: true}
+	o.class("same-context-again/calls=%d/stream=%v", c.Again+1, c.AgainStream)
+	var mu sync.Mutex
+	var seen []string
+	note := func(ctx context.Context) {
+		md, _ := metadata.FromIncomingContext(ctx)
+		mu.Lock()
+		seen = append(seen, strings.Join(md.Get("q-request-id"), ",")+"/"+strings.Join(md.Get("q-static"), ","))
+		mu.Unlock()
+	}
+	svc := &Service{
+		Unary: func(ctx context.Context, req *pb.Message) (*pb.Message, error) { note(ctx); return &pb.Message{}, nil },
+		Stream: func(kind string, stream grpc.ServerStream) error {
+			note(stream.Context())
+			for stream.RecvMsg(new(pb.Message)) == nil {
+			}
+			return nil
+		},
+	}
+	ch := &inprocgrpc.Channel{}
+	ch.RegisterService(newServiceDesc(), svc)
+	md := metadata.Pairs("q-request-id", "1", "q-static", "s")
+	ctx := metadata.NewOutgoingContext(context.Background(), md)
+	var want []string
+	for k := 0; k <= c.Again; k++ {
+		md["q-request-id"][0] = fmt.Sprint(k + 1) // in place: same map, same slice, same context
+		want = append(want, fmt.Sprintf("%d/s", k+1))
+		var err error
+		stall := guard("call", func() {
+			if c.AgainStream {
+				var cs grpc.ClientStream
+				cs, err = ch.NewStream(ctx, streamDescOf(kBidi), mBidi)
+				if err == nil {
+					cs.CloseSend()
+					if err = cs.RecvMsg(new(pb.Message)); fmt.Sprint(err) == "EOF" {
+						err = nil
+					}
+				}
+				return
+			}
+			err = ch.Invoke(ctx, mUnary, &pb.Message{}, new(pb.Message))
+		})
+		if stall != "" {
+			return o.failf("stall: %s", stall)
+		}
+		if err != nil {
+			return o.failf("call %d with the same context failed: %v", k+1, err)
+		}
+	}
+	mu.Lock()
+	defer mu.Unlock()
+	o.Observed = map[string]interface{}{"handlers_saw": seen, "want": want}
+	if !sameStrings(seen, want) {
+		return o.failf("calls made one after the other with the same context object, metadata updated in place in between: handlers saw %v, the metadata at the time of each call was %v", seen, want)
+	}
+	return o
+}
+
 func propC10(c c10Case) *Outcome {
+	if c.Again > 0 {
+		return c10Again(c)
+	}
 	o := &Outcome{}
 	o.class("depth=%d/interceptor=%v/deadline=%v/cancel=%v", len(c.Levels), c.Interceptor, c.DeadlineNs != 0, c.Cancel)
 	nvals := 0
@@ -370,6 +437,9 @@ func propC10(c c10Case) *Outcome {
 }
 
 func genC10(t *rapid.T) c10Case {
+	if rapid.IntRange(0, 19).Draw(t, "again") == 0 {
+		return c10Case{Again: rapid.IntRange(1, 3).Draw(t, "againn"), AgainStream: rapid.Bool().Draw(t, "againstream")}
+	}
 	c := c10Case{Interceptor: rapid.Bool().Draw(t, "interceptor"), Cancel: rapid.IntRange(0, 3).Draw(t, "cancel") == 0, Mutate: rapid.Bool().Draw(t, "mutate"), MutCaller: rapid.Bool().Draw(t, "mutcaller")}
 	if rapid.Bool().Draw(t, "deadline") {
 		c.DeadlineNs = int64(rapid.IntRange(1, 100).Draw(t, "dl-hours")) * int64(time.Hour)
